@@ -406,8 +406,14 @@ static unsigned pick_payload(unsigned char *buf, uint64_t r)
 		sz = pl_small[(r >> 3) % (sizeof(pl_small) / sizeof(*pl_small))];
 	else if(P.m_pl >= 2)
 		sz = pl_mixed[(r >> 3) % (sizeof(pl_mixed) / sizeof(*pl_mixed))];
-	/* few distinct contents: equal timestamps with equal type and size then compare by payload bytes */
-	fill_bytes(buf, 0, sz, (r >> 17) % 3);
+	/* few distinct contents: equal timestamps with equal type and size then compare by payload bytes; long payloads often
+	 * share their first 32 bytes (the part stored inline in the message) and differ only in the continuation */
+	if(sz > MSG_PAYLOAD_BASE_SIZE && ((r >> 23) & 1)) {
+		fill_bytes(buf, 0, MSG_PAYLOAD_BASE_SIZE, 7);
+		fill_bytes(buf, MSG_PAYLOAD_BASE_SIZE, sz, (r >> 17) % 3);
+	} else {
+		fill_bytes(buf, 0, sz, (r >> 17) % 3);
+	}
 	return sz;
 }
 
